@@ -1,7 +1,7 @@
 """Per-property claim texts for MANIFEST.json."""
 HOOK_COMMITS = []
 KANI_PROPS = []
-BOUNDED_PROPS = ['C01', 'C03', 'C04', 'C07', 'C08', 'C09', 'C10', 'C12', 'C13', 'C14', 'C15', 'C17', 'C18', 'C19', 'C20']
+BOUNDED_PROPS = ['C01', 'C02', 'C03', 'C04', 'C07', 'C08', 'C09', 'C10', 'C12', 'C13', 'C14', 'C15', 'C17', 'C18', 'C19', 'C20']
 NOTES = ('Exit status of every check: 0 = all obligations of the property discharged (KNOWN-FINDING lines may be printed), '
          '1 = VIOLATION line, 2 = undecided (lost anchor, Verus front-end error, resource limit, unstable verdict) -- never an alarm. '
          'Claims marked PARTIAL list what is outside the contracts under evidence.coverage.not_covered; checks whose category is "other" are bounded stand-ins only (no discharged obligation). See DESIGN.md.')
@@ -158,10 +158,10 @@ NOT_COVERED = {
     'C14': ['decode_hermes function-map decoding (running column/name/line state)', 'get_original_function_name wrapper', 'stability under serialise/decode'],
     'C01': ['mapping-level inverse lemma decode(encode(ts)) == dedup(ts) (spec level)', 'as_raw_sourcemap field plumbing (SourceMap / SourceMapIndex / Hermes)',
             'decode_regular tail (names / sources / contents / file / debug id / ignore list conversions)', 'serde_json layer'],
-    'C02': ['decode_common kind dispatch', 'lenient names/file/sources conversions, debug_id precedence'],
+    'C02': ['lenient names/file/sources conversions and debug_id precedence in the tail of decode_regular (bounded stand-in decode_document only)', 'termination of the decode_index / decode_common recursion (bounded by serde_json)'],
     'C03': ['as_raw_sourcemap field plumbing and the serde skip_serializing_if attributes', 'index-map sections', '"an independent decoder reads it back" needs the mapping-level inverse lemma'],
     'C07': ['spec-level lemma that the reference bitfield reader inverts the reference writer (both sides are proved equal to their reference, the inverse lemma itself is not yet written)'],
-    'C11': ['canonical-text direction encode(decode(s)) == s'],
+    'C11': ['an independent syntactic characterisation of canonical texts (canonical is defined as the image of the reference encoder)'],
     'C12': ['detection predicates is_sourcemap / is_sourcemap_slice wiring', 'decode_data_url'],
     'C13': ['"serialisation writes raw names plus root" (as_raw_sourcemap)', 'strip_prefixes'],
     'C04': ['adjust_mappings re-sort and rewrite / flatten as token producers (their results go through into_sourcemap / SourceMap::new, which are proved)'],
